@@ -107,10 +107,13 @@ const (
 	hzCmtInExpr     = "fmt-comment-in-expression-position"
 	hzCmtAfterLine  = "fmt-comment-after-semicolon-joins-line-comment"
 	hzElseIfCmt     = "fmt-compact-else-block-comment-and-if-becomes-else-if"
+	hzDotIndex      = "fmt-dot-index-expression-loses-parens"                              // a.(b + c) -> a.b + c
+	hzMinusMinInt   = "fmt-prefix-minus-before-min-int-literal-printed-as-decrement"       // normal mode: - -9223372036854775808 -> --9223372036854775808
+	hzStalePrev     = "fmt-block-first-statement-placed-by-last-comment-of-previous-block" // normal mode, C03
 )
 
 var hazardOrder = []string{hzSamePrecRight, hzAssocRegroup, hzAssocExposes, hzSignSign, hzStrEscape, hzLambdaOperand, hzCallee, hzMapKV, hzNumberDot, hzOpenSlice, hzOpenInArr,
-	hzStmtSign, hzStmtSignC, hzWordGlue, hzBracketStart, hzCmtInExpr, hzCmtAfterLine, hzElseIfCmt}
+	hzStmtSign, hzStmtSignC, hzWordGlue, hzBracketStart, hzCmtInExpr, hzCmtAfterLine, hzElseIfCmt, hzDotIndex, hzMinusMinInt, hzStalePrev}
 
 var associativeOps = map[string]bool{"+": true, "*": true, "&&": true, "||": true, "&": true, "|": true, "^": true}
 
@@ -151,7 +154,7 @@ func realPrec(n J) int { // binding strength the REAL printer works with (ast.Pr
 		return precPrefix
 	case "idx":
 		return precIndex
-	case "dot":
+	case "dot", "dotbad":
 		return precDot
 	}
 	return precAtom
@@ -198,8 +201,26 @@ func replaceLeftmost(n J, repl J) J {
 	return n
 }
 
+// startsWithSignLiteral: the one literal TOKEN whose text starts with a sign character (-9223372036854775808 in any
+// spelling; the parser folds `-` INT into one int token when the value is -2^63).
+func startsWithSignLiteral(m J) bool {
+	v, _ := m["v"].(string)
+	return m["k"] == "int" && strings.HasPrefix(v, "-")
+}
+
+// signOperand: what stays of the leftmost node m of a sign-adjacency site when its sign is taken away from the boundary.
+func signOperand(m J) any {
+	if m["k"] == "pre" {
+		return m["r"]
+	}
+	return m
+}
+
 func firstSign(n J) string { // the sign character the printed text of n starts with, or ""
 	m := leftmost(n)
+	if startsWithSignLiteral(m) {
+		return "-"
+	}
 	if m["k"] == "pre" {
 		op := m["op"].(string)
 		if op[0] == '-' || op[0] == '+' || op[0] == '^' {
@@ -418,7 +439,7 @@ func (h *hazardCtx) walk(n J) J {
 		if h.mode == "C" && n["k"] == "inf" && (n["op"] == "-" || n["op"] == "+") && r != nil && realPrec(r) >= realPrec(n) {
 			if s := firstSign(r); s != "" && s[0] == n["op"].(string)[0] {
 				if h.hit(hzSignSign) {
-					n["r"] = replaceLeftmost(r, wrapNZ(leftmost(r)["r"]))
+					n["r"] = replaceLeftmost(r, wrapNZ(signOperand(leftmost(r))))
 				}
 			}
 		}
@@ -437,8 +458,25 @@ func (h *hazardCtx) walk(n J) J {
 			}
 		}
 		_ = l
+	case "dotbad":
+		// neutral form: the same two operands as an index expression, a[b + c]
+		if h.hit(hzDotIndex) {
+			n["k"] = "idx"
+		}
 	case "pre":
 		r, _ := n["r"].(J)
+		if r != nil && n["op"] == "-" && !isInfixKind(r) && r["k"] != "pre" && startsWithSignLiteral(leftmost(r)) {
+			// - -9223372036854775808: the operand is ONE token that starts with `-`; compact mode has the blank of
+			// fmt-compact-minus-minus, normal mode writes the two signs next to each other
+			id := hzMinusMinInt
+			if h.mode == "C" {
+				id = hzSignSign
+			}
+			if h.hit(id) {
+				n["r"] = replaceLeftmost(r, wrapNZ(leftmost(r)))
+			}
+		}
+		r, _ = n["r"].(J)
 		if r != nil && isLambda(leftmost(r)) && !isInfixKind(r) {
 			if h.hit(hzLambdaOperand) {
 				n["r"] = replaceLeftmost(r, wrapNZ(leftmost(r)))
@@ -611,8 +649,111 @@ func stmtText(n J) (s string) {
 func hazards(tree []any, mode string, neutral map[string]bool) (found map[string]bool, out []any) {
 	h := &hazardCtx{mode: mode, found: map[string]bool{}, neutral: neutral, fsText: stmtText}
 	cp := deepCopy(any(tree)).([]any)
+	if mode == "N" {
+		sim := &prevSim{}
+		sim.list(cp, false)
+		for _, cmt := range sim.sites {
+			if h.hit(hzStalePrev) {
+				cmt["sn"] = false // the comment is followed by a newline: what the printer's own output looks like
+			}
+		}
+	}
 	out = h.walkStmts(cp)
 	return h.found, out
+}
+
+// prevSim walks a tree in the order the printer visits it and keeps what the printer keeps in PrintState.prev: the
+// statement most recently COMPLETED, in whichever statement list. The first statement of a block is laid out by
+// looking at that "previous statement"; when it is the last comment of an EARLIER block of the same statement
+// (`if a { b /* c */ } else { d }`, flagged "same line as the next token" because the `}` follows it), the first
+// statement of the later block is kept on the line of its `{` - and moves to its own line on the second pass, when
+// the comment is followed by a newline.
+type prevSim struct {
+	prev  J
+	sites []J // the comments that decide the layout of a later block
+}
+
+func (p *prevSim) list(stmts []any, block bool) {
+	for i, s := range stmts {
+		st, ok := s.(J)
+		if !ok {
+			continue
+		}
+		if block && i == 0 && p.prev != nil && p.prev["k"] == "cmt" && p.prev["sn"] == true {
+			text, _ := p.prev["text"].(string)
+			ownLine := st["k"] == "cmt" && st["sp"] == true // a comment kept on the line of the `{` whatever came before
+			if !strings.HasPrefix(text, "//") && !ownLine {
+				p.sites = append(p.sites, p.prev)
+			}
+		}
+		p.node(st)
+		p.prev = st
+	}
+}
+
+func (p *prevSim) node(n J) {
+	sub := func(keys ...string) {
+		for _, k := range keys {
+			switch c := n[k].(type) {
+			case J:
+				p.node(c)
+			case []any:
+				for _, e := range c {
+					switch x := e.(type) {
+					case J:
+						p.node(x)
+					case []any: // map pair
+						for _, y := range x {
+							if yj, ok := y.(J); ok {
+								p.node(yj)
+							}
+						}
+					}
+				}
+			}
+		}
+	}
+	switch n["k"] {
+	case "inf", "asg":
+		sub("l", "r")
+	case "pre":
+		sub("r")
+	case "idx", "dotbad":
+		sub("l", "i")
+	case "dot":
+		sub("l")
+	case "call":
+		sub("f", "a")
+	case "bi":
+		sub("a")
+	case "arr":
+		sub("e")
+	case "map":
+		sub("p")
+	case "ret":
+		sub("e")
+	case "if":
+		sub("c")
+		if t, ok := n["t"].([]any); ok {
+			p.list(t, true)
+		}
+		if e, ok := n["e"].([]any); ok && n["he"] == true {
+			if len(e) == 1 && kindOf(e[0]) == "if" {
+				p.node(e[0].(J)) // printed `else if ..`: no block of its own
+			} else {
+				p.list(e, true)
+			}
+		}
+	case "for":
+		sub("c")
+		if b, ok := n["body"].([]any); ok {
+			p.list(b, true)
+		}
+	case "fn", "mac":
+		if b, ok := n["body"].([]any); ok {
+			p.list(b, true)
+		}
+	}
 }
 
 func sortedKeys(m map[string]bool) []string {
@@ -767,7 +908,7 @@ func safeRender(t []any) (src string, ok bool) {
 			ok = false
 		}
 	}()
-	if containsKind(any(t), map[string]bool{"dotbad": true, "mac": true, "block": true, "unknown": true}) {
+	if containsKind(any(t), map[string]bool{"mac": true, "block": true, "unknown": true}) {
 		return "", false
 	}
 	src, _ = fmtRenderProgram(t, fsMin, nil)
